@@ -21,6 +21,8 @@ def run(ck):
     ck.assumptions += ['SVD-based matrix root: contract R R = M checked numerically', 'tolerance 1e-9 (float64); 1e-6 for the memory-light kernel (own-term cancellation noise, see comment in harness/c14.py)',
                        'n <= total_points_to_sample (20000): no truncation of the batch list']
     ck.check_theorems()
+    from harness import gradops
+    gradops.check_translation(ck)
     rng = np.random.default_rng(ck.seed + 1414)
     kernels = [('l2', {}), ('l2_high_dim', {}), ('l1', {}), ('lpq', dict(norm_p=1.5)), ('sum_power_laplace', {})]
     cases = []; meta = {}
